@@ -253,6 +253,12 @@ func localNames(fn *ssa.Function) []string {
 				continue
 			}
 			name := al.Comment
+			// compiler-made temporaries are not locals of the source (a refactoring that moves a call into a helper
+			// moves its varargs array along: the count of *named* locals is what has to stay the same)
+			switch name {
+			case "varargs", "complit", "slicelit", "arraylit", "new", "makeslice", "makemap", "makechan", "rangeindex", "rangeiter":
+				continue
+			}
 			seen[name]++
 			if seen[name] > 1 {
 				name = fmt.Sprintf("%s_%d", name, seen[name])
@@ -271,12 +277,25 @@ func writeLocals(repo, verifDir string) int {
 	}
 	out := map[string][]string{}
 	for _, fs := range P.Specs.Funcs {
-		if fs.Assumed || len(fs.Loops) == 0 {
+		if fs.Assumed {
 			continue
 		}
-		if fn := P.Funcs[fs.Key]; fn != nil {
-			out[fs.Key] = localNames(fn)
+		fn := P.Funcs[fs.Key]
+		if fn == nil {
+			continue
 		}
+		// captured variables of a closure under contract, in capture order (key "<function>#free")
+		if len(fn.FreeVars) > 0 {
+			var names []string
+			for _, fv := range fn.FreeVars {
+				names = append(names, fv.Name())
+			}
+			out[fs.Key+"#free"] = names
+		}
+		if len(fs.Loops) == 0 {
+			continue
+		}
+		out[fs.Key] = localNames(fn)
 	}
 	b, _ := json.MarshalIndent(out, "", " ")
 	if err := os.WriteFile(filepath.Join(verifDir, "contracts", "locals.json"), append(b, '\n'), 0o644); err != nil {
